@@ -2,6 +2,7 @@ package main
 
 import (
 	"golang.org/x/tools/go/ssa"
+	"strings"
 )
 
 func init() {
@@ -95,6 +96,51 @@ func checkC08(p *Prog, r *Report) {
 		p.runFraming(r, "E3.hashframe", hm)
 	}
 	r.floor("E3.hashframe", 10)
+	p.depsAccessorUnfiltered(r, "E2.dependencies-hashed-unfiltered", rh)
+}
+
+// depsAccessorUnfiltered: the accessor through which the rule hash reads BuildTarget.dependencies must yield an
+// element for every entry of that list. BuildTarget has filtered siblings (DeclaredDependenciesStrict drops exported,
+// runtime, source- and tool-implied dependencies; those are hashed nowhere else), and coverage of the *field* (E2) cannot
+// tell them apart.
+func (p *Prog) depsAccessorUnfiltered(r *Report, rule string, rh *ssa.Function) {
+	n := 0
+	seen := map[*ssa.Function]bool{}
+	eachInstr(rh, true, func(_ *ssa.Function, i ssa.Instruction) {
+		cc := callCommon(i)
+		if cc == nil {
+			return
+		}
+		g := cc.StaticCallee()
+		if g == nil || g.Blocks == nil || seen[g] || !strings.HasPrefix(fnPkg(g), modPath+"/src/core") {
+			return
+		}
+		seen[g] = true
+		if g.Signature.Results().Len() != 1 || !strings.Contains(typeString(g.Signature.Results().At(0).Type()), "BuildLabel") {
+			return
+		}
+		for _, l := range sliceRangeLoops(g) {
+			if fieldKeyOfLoad(l.over) != "core.BuildTarget.dependencies" {
+				continue
+			}
+			n++
+			skips := l.iterationSkips(func(j ssa.Instruction) bool {
+				switch x := j.(type) {
+				case *ssa.Store:
+					_, isIdx := x.Addr.(*ssa.IndexAddr)
+					return isIdx
+				case *ssa.Call:
+					b, ok := x.Call.Value.(*ssa.Builtin)
+					return ok && b.Name() == "append"
+				}
+				return false
+			})
+			r.check(!skips, rule, g.Name()+" yields every declared dependency", p.pos(g.Pos()), fnName(g), "each iteration over BuildTarget.dependencies stores or appends an element", "the rule hash reads the target's dependencies through "+g.Name()+", which leaves some of them out (exported, runtime, source- or tool-implied dependencies): adding or removing such a dependency does not change the rule hash, so the target is neither rebuilt nor reported as changed")
+		}
+	})
+	if n == 0 {
+		r.unresolved(rule, "accessor over BuildTarget.dependencies called from ruleHash")
+	}
 }
 
 func (p *Prog) runFraming(r *Report, rule string, fn *ssa.Function) {
